@@ -89,7 +89,9 @@ Why(r) ==
          Exp(n) == << "./" \o RelPath(w, n), w.nodes[n].name, Str(ExtC(w.nodes[n].namec)), Str(DirC(w, n)), AbsOf(n), AbsOf(w.nodes[n].parent),
                       BoolText(w.nodes[n].namec[1] = "."),
                       BoolText(IF w.nodes[n].kind = "dir" THEN ChildrenOf(w, n) = {} ELSE r.snapshot[n].sizen = 0) >>
-         bad == { <<i, j>> \in (1 .. Len(rows)) \X (1 .. Len(cols)) : ids[i] # 0 /\ rows[i][j] # Exp(ids[i])[j] }
+         \* (for a link the statement fixes its location - dir, absdir - not what abspath resolves to, nor emptiness)
+         bad == { <<i, j>> \in (1 .. Len(rows)) \X (1 .. Len(cols)) : ids[i] # 0 /\ rows[i][j] # Exp(ids[i])[j]
+                                                                      /\ ~(w.nodes[ids[i]].kind = "symlink" /\ cols[j] \in {"abspath", "is_empty"}) }
      IN IF { ids[i] : i \in 1 .. Len(rows) } # all \/ Len(rows) # Cardinality(all) THEN "wrong-row-set"
         ELSE IF bad # {} THEN "wrong-" \o cols[(CHOOSE p \in bad : \A q \in bad : p[2] <= q[2])[2]] ELSE "ok"
   ELSE IF r.kind = "extclass" THEN
